@@ -46,11 +46,18 @@ func c15Check(c c15Case) (string, string) {
 	cons := op.GetInputTypeConstraints()
 	variadic := c.Op == "Concat"
 	n := len(c.Dtypes)
-	inputs := make([]tensor.Tensor, n)
+	// the list is a prefix of a longer, populated array: what lies beyond its length is not part
+	// of the request (an omitted optional input is absent, whatever the spare capacity holds)
+	backing := make([]tensor.Tensor, n, n+3)
+	inputs := backing[:n]
 	for i, d := range c.Dtypes {
 		if d != "nil" {
 			inputs[i] = oneElem(dtypeByName(d))
 		}
+	}
+	spare := backing[:n+3]
+	for i := n; i < n+3; i++ {
+		spare[i] = oneElem(tensor.Int64)
 	}
 	supplied := append([]tensor.Tensor{}, inputs...)
 
@@ -315,7 +322,7 @@ func TestC15(t *testing.T) {
 			names := opset13.GetOpNames()
 			sort.Strings(names)
 			base := rapid.SampledFrom(names).Draw(rt, "base")
-			name := rapid.SampledFrom([]string{"", "abs", "ABS", base + " ", " " + base, base[:len(base)-1], base + "2", "Identity", "com.microsoft." + base}).Draw(rt, "variant")
+			name := rapid.SampledFrom([]string{"", "abs", "ABS", base + " ", " " + base, base[:len(base)-1], base + "2", "Identity", "com.microsoft." + base, "ai.onnx." + base, "ai.onnx.ml." + base, "onnx::" + base}).Draw(rt, "variant")
 			if rapid.Bool().Draw(rt, "random") {
 				name = rapid.StringMatching(`[A-Za-z]{1,12}`).Draw(rt, "name")
 			}
